@@ -117,6 +117,62 @@ theorem remote_binding_survives (remoteType : Nat) (types : List Nat) (r : Rec) 
   unfold restartView
   simp [hm, hs]
 
+/-! ### the binding of a remote unit (what `ackcrash` runs) -/
+
+/-- the record is readable, carries the unit's work type and the binding `b` -/
+def Bound (wt : Nat) (b : Option Nat) (d : Disk) : Prop := d.dir = true ∧ ∃ r, d.status = .full r ∧ r.wt = wt ∧ r.remote = b
+
+theorem scan_inplace_bound (wt : Nat) (b : Option Nat) : ∀ (later : List Rec) (d : Disk), Bound wt b d →
+    (∀ r ∈ later, r.wt = wt ∧ r.remote = b) →
+    ∀ x ∈ scan d (later.flatMap (rewrite false)), (x.1 = .truncate ∧ x.2.dir = true ∧ x.2.status = .empty) ∨ Bound wt b x.2 := by
+  intro later
+  induction later with
+  | nil => intro d _ _ x hx; simp [scan] at hx
+  | cons r rest ih =>
+    intro d hd hs x hx
+    have hr := hs r (by simp)
+    have hdir : d.dir = true := hd.1
+    simp only [List.flatMap_cons, rewrite, Bool.false_eq_true, if_false, List.cons_append, List.nil_append, scan, List.mem_cons] at hx
+    rcases hx with hx | hx | hx
+    · left; subst hx; simp [apply, hdir]
+    · right; subst hx; exact ⟨by simp [apply, hdir], r, by simp [apply, hdir], hr⟩
+    · exact ih _ ⟨by simp [apply, hdir], r, by simp [apply, hdir], hr⟩ (fun y hy => hs y (by simp [hy])) x hx
+
+theorem view_of_bound (remoteType : Nat) (types : List Nat) (wt : Nat) (b : Option Nat) (d : Disk) (h : Bound wt b d) :
+    ∃ st sz, restartView remoteType types d = .listed wt st sz b := by
+  obtain ⟨hdir, r, hst, hwt, hb⟩ := h
+  unfold restartView
+  simp only [hdir, hst, Bool.not_true, Bool.false_eq_true, if_false]
+  subst hwt hb
+  repeat' split
+  all_goals exact ⟨_, _, rfl⟩
+
+/-- **binding_survives_crash_after_ack_partial.** From the moment the record carrying a binding `b` (for a remote unit: the
+executing node and the remote unit it answered with) is on disk, and whatever rewrites follow that keep work type and
+binding — state changes, output sizes, `RemoteStarted` — a node that dies at any point, except between the truncation and
+the write of a rewrite, comes back listing the unit with that work type and that binding.  While a remote unit's stdin is
+being sent no step touches the record (fact `crash_remote_bind_order`), so every instant of the transfer is such a point.
+(*Partial*: same excluded window as `survives_crash_outside_rewrite_partial`.) -/
+theorem binding_survives_crash_after_ack_partial (remoteType : Nat) (types : List Nat) (r1 : Rec) (later : List Rec)
+    (hs : ∀ r ∈ later, r.wt = r1.wt ∧ r.remote = r1.remote) (x : FsStep × Disk)
+    (hx : x ∈ scan { dir := true, status := .full r1 } (later.flatMap (rewrite false))) (hw : x.1 ≠ .truncate) :
+    ∃ st sz, restartView remoteType types x.2 = .listed r1.wt st sz r1.remote := by
+  rcases scan_inplace_bound r1.wt r1.remote later _ ⟨rfl, r1, rfl, rfl, rfl⟩ hs x hx with h | h
+  · exact absurd h.1 hw
+  · exact view_of_bound remoteType types r1.wt r1.remote x.2 h
+
+/-- …and at the instants of the stdin transfer themselves (no step since the record with the binding was written) -/
+theorem binding_on_disk_during_stdin (remoteType : Nat) (types : List Nat) (r0 r1 : Rec) :
+    ∃ st sz, restartView remoteType types (applyAll {} (history false r0 [r1])) = .listed r1.wt st sz r1.remote :=
+  view_of_bound remoteType types r1.wt r1.remote _ ⟨rfl, r1, rfl, rfl, rfl⟩
+
+/-- Witness: if the remote unit is stored only with the final rewrite, the node that dies during the transfer comes back
+without it -/
+theorem C04_witness_binding_lost_without_early_store :
+    restartView 1 [1] (applyAll {} (history false { wt := 1, state := 0, size := 0, remote := none } [])) = .listed 1 3 0 none
+    ∧ restartView 1 [1] (applyAll {} (history false { wt := 1, state := 0, size := 0, remote := none }
+        [{ wt := 1, state := 0, size := 0, remote := some 7 }])) = .listed 1 3 0 (some 7) := by decide
+
 /-- the recorded finding: a crash between the truncation and the write of any rewrite leaves an empty record;
 the restarted node lists the unit as failed with *no* work type and *no* remote binding -/
 theorem C04_witness_type_lost_in_window :
